@@ -64,6 +64,7 @@ def check(ctx, report):
     eager_decoding(ctx, report)
     absent_directive_defaults(ctx, report)
     decoded_documents(ctx, report)
+    validator_agreement(ctx, report)
     report.rule('C02.R4', 'risky operations on input derived values are guarded or converted')
     deep = Interp(model, deep=True)
     es = Escape(model, deep)
@@ -567,3 +568,114 @@ def decoded_documents(ctx, report):
                                'or an unrepresentable number escapes as that exception' % (fn, ', '.join(missing)))
     if n == 0:
         report.error('C02.R7: no json.loads call found in the package (anchor moved)')
+
+
+# ---- R8: what a parse primitive produces is what the validator of the receiving field accepts --------------------------------
+
+def validator_agreement(ctx, report):
+    """``cls(parser['x'])`` / ``cls(**parser)``: the value stored under x by parse_parsable is an instance of the parsed
+    class (after the field's converter, of the converter class).  An instance_of validator naming other classes, or a
+    deep_iterable validator whose member type is not the item type of the parsed vector, raises TypeError inside the
+    generated __init__ as soon as the wire value is non-empty -- outside every handler of the parser."""
+    from ..core import representatives
+    from ..values import ParserV, DictV
+    model, it = ctx.model, ctx.interp
+    report.rule('C02.R8', 'the class a parse primitive produces is accepted by the validator of the field it is stored in')
+    array_base = model.try_cls('ArrayBase')
+
+    def classes_of(t):
+        if isinstance(t, ClassV):
+            return [t.cls]
+        if isinstance(t, tuple):
+            out = []
+            for x in t:
+                out.extend(classes_of(x))
+            return out
+        return [None]
+
+    def accepts(types, produced):
+        ks = classes_of(types)
+        if any(k is None or not isinstance(k, ClassInfo) for k in ks):
+            return True         # builtin / external types: not decided here
+        return any(produced is k or produced.is_subclass_of(k) for k in ks)
+
+    def item_type(vec):
+        try:
+            prm = it.const_call(vec, 'get_param')
+        except Exception:      # pylint: disable=broad-except
+            return None
+        if not isinstance(prm, ObjV):
+            return None
+        ic = prm.attrs.get('item_class')
+        if isinstance(ic, ClassV) and isinstance(ic.cls, ClassInfo):
+            return ic.cls
+        if prm.cls is not None and prm.cls.name in ('OpaqueParam', 'VectorParamNumeric'):
+            return 'int'
+        return None
+
+    def examine(c, k, fld, op):
+        if op is None or op.prim != 'parse_parsable':
+            return
+        pc = op.args.get('parsable_class')
+        if not (isinstance(pc, ClassV) and isinstance(pc.cls, ClassInfo)) or pc.cls.is_subclass_of('VariantParsableBase') or pc.cls.abstract_methods:
+            return
+        produced = pc.cls
+        if 'Factory' in produced.name or produced.enum_members is not None:
+            return
+        fr = it.new_frame(None, fld.owner.module, recv=ClassV(fld.owner), defcls=fld.owner)
+        fr.quiet = True
+        if fld.converter_node is not None:
+            conv = it.eval(fld.converter_node, fr)
+            if isinstance(conv, ClassV) and isinstance(conv.cls, ClassInfo):
+                produced = conv.cls
+            else:
+                return
+        val = it.eval(fld.validator_node, fr) if fld.validator_node is not None else None
+        while isinstance(val, ValidatorV) and val.kind == 'optional':
+            val = val.inner
+        if not isinstance(val, ValidatorV):
+            return
+        report.count('C02.R8')
+        where = '%s@validator[%s]' % (c.resolve('_parse').construct, fld.name)
+        if val.kind == 'instance_of' and not accepts(val.type, produced):
+            report.add('C02.R8', where, 'parse_parsable stores a %s, the instance_of validator of %s.%s accepts %s: TypeError inside the generated __init__' % (
+                produced.name, k.name, fld.name, show(val.type)))
+        if val.kind == 'deep_iterable':
+            inner = val.inner
+            while isinstance(inner, ValidatorV) and inner.kind == 'optional':
+                inner = inner.inner
+            if not (isinstance(inner, ValidatorV) and inner.kind == 'instance_of'):
+                return
+            ity = item_type(produced) if (array_base is not None and produced.is_subclass_of(array_base)) else None
+            if ity is None:
+                return
+            want = classes_of(inner.type)
+            if ity == 'int':
+                bad = all(isinstance(w, ClassInfo) for w in want)
+            else:
+                bad = not accepts(inner.type, ity)
+            if bad:
+                report.add('C02.R8', where, 'parse_parsable stores a %s, whose items are %s; the deep_iterable validator of %s.%s wants members of %s: '
+                           'TypeError inside the generated __init__ as soon as the vector is not empty' % (
+                               produced.name, ity if ity == 'int' else ity.name, k.name, fld.name, show(inner.type)))
+    for c in representatives(ctx, '_parse'):
+        res = ctx.canon.layout(c, 'parse').result
+        objs = []
+        find_objs(res.value, objs)
+        for o in objs:
+            k = o.cls
+            if not k.has_attrs():
+                continue
+            for pname, pv in (o.ctor_args or {}).items():
+                fld = k.field(pname)
+                src = field_source(pv)
+                if fld is not None and src is not None:
+                    examine(c, k, fld, src.op)
+            for s in o.star:
+                ps = [s] if isinstance(s, ParserV) else ([x for x in s.star if isinstance(x, ParserV)] if isinstance(s, DictV) else [])
+                for p in ps:
+                    for key, fv in p.keys.items():
+                        fld = k.field(key)
+                        if key not in p.deleted and fld is not None:
+                            examine(c, k, fld, fv.op)
+    report.floor('C02.R8', 40, 'parsed objects stored in validated fields')
